@@ -90,18 +90,22 @@ def p_lex_compat(wd, how):
     return [] if rc == 0 else ["lex-compat (%s): YY_FLEX_LEX_COMPAT is not defined in the scanner" % how]
 
 
-def p_prefix(wd, backend):
-    opts = {'nr': 'prefix="zz"', 'r': 'reentrant prefix="zz"'}[backend]
-    text = spec(opts, "", "")
-    rc, err = flex(wd, text, [])
+def p_prefix(wd, arg):
+    """every external symbol carries the prefix - also the functions that only exist with some other option"""
+    backend, feature = arg if isinstance(arg, tuple) else (arg, "")
+    opts = ('reentrant ' if backend == 'r' else '') + 'prefix="zz" ' + feature
+    top = "%top{\ntypedef union { int i; } YYSTYPE;\ntypedef struct { int first_line; } YYLTYPE;\n}" if "bison" in feature else ""
+    text = spec(opts.strip(), top, "")
+    args = ["--tables-file=zz.tbl"] if feature == "" and backend == 'nr+tables' else []
+    rc, err = flex(wd, text, args)
     if rc:
-        return ["flex fails: " + err[:200]]
+        return ["flex fails (prefix with %s): %s" % (feature, err[:200])]
     rc, e = cc(wd, ["p.c"], link=False)
     if rc:
-        return ["prefix scanner does not compile: " + e[:200]]
+        return ["prefix scanner (%s %s) does not compile: %s" % (backend, feature, e[:200])]
     syms = defined_syms(wd, "p.o")
     bad = [s for s in syms if not s.startswith("zz")]
-    return [] if not bad else ["%%option prefix=\"zz\" (%s): external symbols without the prefix: %s" % (backend, bad[:8])]
+    return [] if not bad else ["%%option prefix=\"zz\" (%s %s): external symbols without the prefix: %s" % (backend, feature, bad[:8])]
 
 
 NOYY = {  # option -> function that must be absent (non-reentrant C scanner unless noted)
@@ -309,7 +313,8 @@ def p_cli_vs_option(wd, arg):
 
 
 PROBES = [("main", p_main, ["opt", "cli"]), ("extra-type", p_extra_type, ["r", "c99"]), ("noyypanic", p_noyypanic, ["nr", "r"]),
-          ("lex-compat", p_lex_compat, ["opt", "cli"]), ("prefix", p_prefix, ["nr", "r"]), ("yylmax", p_yylmax, [None]), ("bufsize", p_bufsize, [None]),
+          ("lex-compat", p_lex_compat, ["opt", "cli"]), ("prefix", p_prefix, [("nr", ""), ("r", ""), ("r", "bison-bridge"), ("r", "bison-bridge bison-locations"), ("nr", "stack yylineno"),
+                                                                       ("r", "stack yylineno"), ("nr", "array"), ("r", "tables-file=\"zz.tbl\""), ("nr", "tables-file=\"zz.tbl\"")]), ("yylmax", p_yylmax, [None]), ("bufsize", p_bufsize, [None]),
           ("splices", p_splices, ["nr", "r"]), ("post-action", p_post_action, [None]), ("user-routines", p_user_routines, ["nr", "r", "c99"]),
           ("header-file", p_header, ["nr", "r"]), ("bison", p_bison, ["bridge", "locations"]), ("contradictions", p_contradictions, [None])]
 
